@@ -56,6 +56,11 @@ func diffClass(d string) string {
 var coreSizes = []int{3, 5, 7, 8, 13, 16, 55, 80, 100, 256, 800, 8000, 8192, 55440, 1 << 20, 1 << 34}
 
 func randAsmConfig(r *Rng, d asm.Dialect) asm.Config {
+	if r.Chance(1, 12) {
+		// tiny cores whose maximum length is the whole core
+		m := []int{3, 4, 5, 7, 8}[r.Intn(5)]
+		return asm.Config{Dialect: d, CoreSize: m, Length: m, Processes: 8, Distance: 0}
+	}
 	m := coreSizes[r.Intn(len(coreSizes))]
 	if r.Chance(1, 2) {
 		m = []int{8000, 80, 800, 8192}[r.Intn(4)]
@@ -83,6 +88,10 @@ func randStyle(r *Rng, renameFrom []string) *asm.Style {
 	}
 	if r.Chance(1, 6) {
 		s.NoFinalNewline = true
+	}
+	if r.Chance(1, 10) {
+		s.LongCommentPct = 30
+		s.CommentPct, s.TrailPct = 20, 30
 	}
 	if r.Chance(1, 8) {
 		s.AfterEnd = []string{"this text is ignored", "mov 1, 2\n dat 0", "; comment after end", "\n\n"}[r.Intn(4)]
@@ -121,6 +130,9 @@ func progNames(p *asm.Prog) []string {
 		}
 	}
 	walk(p.Items)
+	for _, l := range p.EndLabels {
+		add(l)
+	}
 	return out
 }
 
